@@ -130,8 +130,25 @@ UNARY_WITH_RULE = ["__neg__", "__abs__"]
 OTHER_OPS = ["__floordiv__", "__rfloordiv__", "__mod__", "__rmod__", "__pos__", "__pow__", "__rpow__", "__getitem__", "__call__", "__round__", "__len__", "__divmod__"]
 
 
+def preload_real_package():
+    """Replay drivers run in processes forked from the checker; importing the real package once in the parent saves
+    the (slow) import in every replay.  Best effort: a tree that does not import is handled by the drivers."""
+    import os
+
+    if os.environ.get("PYVC_NO_PRELOAD"):
+        return
+    try:
+        import scenic.core.distributions  # noqa: F401
+        import scenic.core.geometry  # noqa: F401
+        import scenic.core.scenarios  # noqa: F401
+    except BaseException:
+        pass
+
+
 def register(reg):
     import numbers as _numbers
+
+    preload_real_package()
 
     from pyvc.builtins_model import NativeModule
 
@@ -154,6 +171,9 @@ def register(reg):
     register_operator_node(reg)
     register_operator_init(reg)
     register_monotonic(reg)
+    register_interval_helpers(reg)
+    register_other_nodes(reg)
+    register_lazy_layer(reg)
 
 
 # ------------------------------------------------------------------------------------------------
@@ -231,6 +251,10 @@ def _stub_dist(lo, hi):
     return Operand()
 
 
+def _inside(x, lo, hi):
+    return (lo is None or lo <= x) and (hi is None or x <= hi)
+
+
 def _real_op(op, x, y):
     import operator as O
 
@@ -255,7 +279,9 @@ def replay_operator_support(inputs, clause):
     node = OperatorDistribution(op, obj, operands, {}, valueType=float)
     lo, hi = node.supportInterval()  # an exception here is reported by the runner (totality)
     x, y = inputs.get("x"), inputs.get("y")
-    if x is None:
+    if x is None or not _inside(x, inputs.get("object.lo"), inputs.get("object.hi")):
+        return None
+    if y is not None and not _inside(y, inputs.get("operand.lo"), inputs.get("operand.hi")):
         return None
     try:
         v = _real_op(op, float(x), None if y is None else float(y))
@@ -546,7 +572,7 @@ def register_operator_node(reg):
         env.vars["context"] = ctx
         env.vars.update(_obj=objk, _keys=keys, _kw=list(zip(kwnames, kwkeys)), _ctx=ctx)
         eng.input_syms.append(("positional", C.Const(None), npos))
-        eng.input_syms.append(("keywords", C.Const(None), kwnames))
+        eng.input_syms.append(("n_keywords", C.Const(None), nkw))
 
     def post_ei(I, env, outcome):
         eng = I.eng
@@ -652,7 +678,7 @@ def replay_operator_evaluate(inputs, clause):
     from scenic.core.distributions import Distribution, OperatorDistribution
     from scenic.core.lazy_eval import DelayedArgument, LazilyEvaluable
 
-    npos, kwnames = int(inputs.get("positional", 0)), list(inputs.get("keywords", []))
+    npos, kwnames = int(inputs.get("positional", 0)), ["beta", "alpha"][: int(inputs.get("n_keywords", 0))]
 
     class Leaf(Distribution):
         def __init__(self):
@@ -926,6 +952,8 @@ def make_replay_monotone_site(mod, fn):
         raw = underlyingFunction(f)
         xs = [float(inputs[f"x{i}"]) for i in range(2)]
         ys = [float(inputs[f"y{i}"]) for i in range(2)]
+        if not all(x <= y for x, y in zip(xs, ys)):
+            return None
         a, b = raw(*xs), raw(*ys)
         if a > b + 1e-12:
             lo_hi = None
@@ -996,10 +1024,967 @@ def replay_monotonic_support(inputs, clause):
         # no point in the model (a totality obligation): take the interval ends
         pts = [iv[0] if iv[0] is not None else (iv[1] if iv[1] is not None else 0.0) for iv in ivs]
     v = f(float(pts[0]), float(pts[1]), k=float(pts[2]))
-    if (lo is not None and v < lo - 1e-9) or (hi is not None and v > hi + 1e-9):
+    if not all(_inside(p, *iv) for p, iv in zip(pts, ivs)):
+        v = None
+    if v is not None and ((lo is not None and v < lo - 1e-9) or (hi is not None and v > hi + 1e-9)):
         return f"support of a monotone f(a, b, k=) over intervals {ivs} is reported as ({lo}, {hi}) but f{tuple(pts)} = {v}"
     if lo is None and all(iv[0] is not None for iv in ivs):
         return f"lower bound unknown although every lower bound is known: {ivs}"
     if hi is None and all(iv[1] is not None for iv in ivs):
         return f"upper bound unknown although every upper bound is known: {ivs}"
     return None
+
+
+# ------------------------------------------------------------------------------------------------
+# (5) interval helpers, primitive supports, findMinMax
+
+
+def opt_real(eng, name):
+    v = eng.fresh_real(name) if eng.choose(2, f"{name} known?") == 0 else None
+    eng.input_syms.append((name, OPT_REAL, v))
+    return v
+
+
+def register_interval_helpers(reg):
+    # ---------------------------------------------------------------- supmin / supmax
+    for fn, cmpop in (("supmin", "<="), ("supmax", ">=")):
+
+        def make(fn=fn, cmpop=cmpop):
+            name = f"distributions.{fn}"
+
+            def setup(I, env):
+                eng = I.eng
+                n = 1 + eng.choose(3, "number of values")
+                env.vars["vals"] = tuple(opt_real(eng, f"v{i}") for i in range(n))
+
+            def post(I, env, outcome):
+                eng = I.eng
+                if outcome[0] != "return":
+                    return
+                vals, res = env.vars["vals"], outcome[1]
+                if res is not None:
+                    eng.check(f"{name}#ensures.bounds_every_value", all(v is not None for v in vals) and sv_and(*[compare(cmpop, res, v) for v in vals if v is not None]))
+                    eng.check(f"{name}#ensures.is_one_of_the_values", sv_or(*[compare("==", res, v) for v in vals if v is not None]))
+                eng.check(f"{name}#ensures.unknown_exactly_when_some_value_is_unknown", (res is None) == any(v is None for v in vals))
+
+            reg.add(C.Contract(f"{D}:{fn}", params=dict(vals=C.Const(None)), setup=setup, post=post, replay=make_replay_sup(fn), properties=("C05",), note="1 to 3 values", bounded=True), key=f"{D}:{fn}[verify]")
+
+        make()
+
+    # ---------------------------------------------------------------- unionOfSupports
+    def setup_u(I, env):
+        eng = I.eng
+        n = 1 + eng.choose(3, "number of supports")
+        ivs = [make_interval(eng, f"s{i}") for i in range(n)]
+        as_gen = eng.choose(2, "given as a one-shot iterator?") == 1
+        from pyvc.builtins_model import OneShot
+
+        env.vars["supports"] = OneShot(ivs) if as_gen else tuple(ivs)
+        env.vars["_ivs"] = ivs
+
+    def post_u(I, env, outcome):
+        eng = I.eng
+        name = "distributions.unionOfSupports"
+        if outcome[0] != "return":
+            return
+        ivs = env.vars["_ivs"]
+        k = eng.choose(len(ivs), "which support does the value come from")
+        x, h = point_in(eng, "x", *ivs[k])
+        check_sound(eng, name, outcome[1], True, x, h)
+
+    reg.add(C.Contract(f"{D}:unionOfSupports", params=dict(supports=C.Const(None)), setup=setup_u, post=post_u, inline=["supmin", "supmax"], replay=replay_union, properties=("C05",), note="1 to 3 supports", bounded=True), key=f"{D}:unionOfSupports[verify]")
+
+    # ---------------------------------------------------------------- addSupports
+    def setup_a(I, env):
+        eng = I.eng
+        env.vars["sup1"], env.vars["sup2"] = make_interval(eng, "sup1"), make_interval(eng, "sup2")
+
+    def post_a(I, env, outcome):
+        eng = I.eng
+        if outcome[0] != "return":
+            return
+        x, hx = point_in(eng, "x", *env.vars["sup1"])
+        y, hy = point_in(eng, "y", *env.vars["sup2"])
+        check_sound(eng, "distributions.addSupports", outcome[1], True, x + y, sv_and(hx, hy))
+        res = outcome[1]
+        if isinstance(res, tuple) and len(res) == 2:
+            eng.check("distributions.addSupports#ensures.lower_known_when_both_lowers_known", (res[0] is not None) == (env.vars["sup1"][0] is not None and env.vars["sup2"][0] is not None))
+            eng.check("distributions.addSupports#ensures.upper_known_when_both_uppers_known", (res[1] is not None) == (env.vars["sup1"][1] is not None and env.vars["sup2"][1] is not None))
+
+    reg.add(C.Contract(f"{D}:addSupports", params=dict(sup1=C.Const(None), sup2=C.Const(None)), setup=setup_a, post=post_a, replay=replay_add_supports, properties=("C05",)))
+
+    # ---------------------------------------------------------------- module-level supportInterval(thing)
+    def setup_si(I, env):
+        eng = I.eng
+        kind = eng.choose(4, "kind of thing")
+        env.vars["_kind"] = kind
+        if kind == 0:
+            iv = make_interval(eng, "thing")
+            env.vars["thing"], env.vars["_iv"] = operand_stub("thing", *iv), iv
+        elif kind == 1:
+            env.vars["thing"] = eng.fresh_real("c")
+        elif kind == 2:
+            env.vars["thing"] = eng.fresh_int("c")
+        else:
+            env.vars["thing"] = PObj("SomethingElse", tag="thing")
+
+    def post_si(I, env, outcome):
+        eng = I.eng
+        name = "distributions.supportInterval"
+        if outcome[0] != "return":
+            return
+        kind, res = env.vars["_kind"], outcome[1]
+        if kind == 0:
+            eng.check(f"{name}#ensures.defers_to_the_value's_own_supportInterval", isinstance(res, tuple) and len(res) == 2 and res[0] is env.vars["_iv"][0] and res[1] is env.vars["_iv"][1])
+        elif kind in (1, 2):
+            check_sound(eng, name + "[constant]", res, True, env.vars["thing"], True)
+        else:
+            check_sound(eng, name + "[unknown]", res, False, 0, True)
+
+    reg.add(C.Contract(f"{D}:supportInterval", params=dict(thing=C.Const(None)), setup=setup_si, post=post_si, properties=("C05",)), key=f"{D}:supportInterval[verify]")
+
+    # ---------------------------------------------------------------- Range / DiscreteRange / Multiplexer .supportInterval
+    def endpoint(eng, name):
+        """A range endpoint: a constant, or a random value with an interval; returns (object, interval, sampled value, hypothesis)."""
+        if eng.choose(2, f"{name} random?") == 0:
+            c = eng.fresh_real(name)
+            eng.input_syms.append((name, C.Real(), c))
+            return c, (c, c), c, True
+        iv = make_interval(eng, name)
+        v, h = point_in(eng, f"v({name})", *iv)
+        return operand_stub(name, *iv), iv, v, h
+
+    def setup_range(I, env):
+        eng = I.eng
+        lo = endpoint(eng, "low")
+        hi = endpoint(eng, "high")
+        env.vars["self"].fields.update(low=lo[0], high=hi[0], weights=None)
+        env.vars["_lo"], env.vars["_hi"] = lo, hi
+
+    def post_range(I, env, outcome):
+        eng = I.eng
+        if outcome[0] != "return":
+            return
+        lo, hi = env.vars["_lo"], env.vars["_hi"]
+        a, b = lo[2], hi[2]
+        v = eng.fresh_real("sample")
+        eng.input_syms.append(("sample", C.Real(), v))
+        # A3: random.uniform(a, b) lies between its arguments (in either order)
+        mn, mx = sv_ite(compare("<=", a, b), a, b), sv_ite(compare("<=", a, b), b, a)
+        between = sv_and(compare("<=", mn, v), compare("<=", v, mx))
+        check_sound(eng, "distributions.Range.supportInterval", outcome[1], True, v, sv_and(lo[3], hi[3], between))
+
+    reg.add(C.Contract(f"{D}:Range.supportInterval", params=dict(self=C.Obj(f"{D}:Range")), setup=setup_range, post=post_range, inline=["supportInterval", "unionOfSupports", "supmin", "supmax"], replay=replay_range_support, properties=("C05",)))
+
+    def post_drange(I, env, outcome):
+        eng = I.eng
+        if outcome[0] != "return":
+            return
+        lo, hi = env.vars["_lo"], env.vars["_hi"]
+        a, b = lo[2], hi[2]
+        v = eng.fresh_int("sample")
+        eng.input_syms.append(("sample", C.Int(), v))
+        # DiscreteRange.sampleGiven contract: an integer between ceil(low) and floor(high), i.e. low <= v <= high
+        between = sv_and(compare("<=", a, v), compare("<=", v, b))
+        check_sound(eng, "distributions.DiscreteRange.supportInterval", outcome[1], True, v, sv_and(lo[3], hi[3], between))
+
+    reg.add(C.Contract(f"{D}:DiscreteRange.supportInterval", params=dict(self=C.Obj(f"{D}:DiscreteRange")), setup=setup_range, post=post_drange, inline=["supportInterval"], replay=replay_drange_support, properties=("C05",)))
+
+    def setup_mux(I, env):
+        eng = I.eng
+        n = 1 + eng.choose(3, "number of options")
+        opts = [endpoint(eng, f"opt{i}") for i in range(n)]
+        env.vars["self"].fields.update(options=tuple(o[0] for o in opts), index=PObj("Selector", tag="index"))
+        env.vars["_opts"] = opts
+
+    def post_mux(I, env, outcome):
+        eng = I.eng
+        if outcome[0] != "return":
+            return
+        opts = env.vars["_opts"]
+        k = eng.choose(len(opts), "selected option")
+        # MultiplexerDistribution.sampleGiven contract: the value of the selected option
+        check_sound(eng, "distributions.MultiplexerDistribution.supportInterval", outcome[1], True, opts[k][2], opts[k][3])
+
+    reg.add(C.Contract(f"{D}:MultiplexerDistribution.supportInterval", params=dict(self=C.Obj(f"{D}:MultiplexerDistribution")), setup=setup_mux, post=post_mux, inline=["supportInterval", "unionOfSupports", "supmin", "supmax"], properties=("C05",), note="1 to 3 options", bounded=True))
+
+    # ---------------------------------------------------------------- geometry.findMinMax
+    def setup_fmm(I, env):
+        eng = I.eng
+        n = eng.choose(4, "number of values")
+        vals = [eng.fresh_real(f"v{i}") for i in range(n)]
+        for i, x in enumerate(vals):
+            eng.input_syms.append((f"v{i}", C.Real(), x))
+        env.vars["iterable"] = tuple(vals)
+
+    def post_fmm(I, env, outcome):
+        eng = I.eng
+        name = "geometry.findMinMax"
+        if outcome[0] != "return":
+            return
+        vals, res = env.vars["iterable"], outcome[1]
+        ok = isinstance(res, tuple) and len(res) == 2
+        eng.check(f"{name}#ensures.returns_a_pair", ok)
+        if not ok:
+            return
+        mn, mx = res
+        if not vals:
+            eng.check(f"{name}#ensures.empty_gives_the_empty_interval", isinstance(mn, Infinity) and mn.sign > 0 and isinstance(mx, Infinity) and mx.sign < 0)
+            return
+        fin = not isinstance(mn, Infinity) and not isinstance(mx, Infinity)
+        eng.check(f"{name}#ensures.finite_for_a_nonempty_input", fin)
+        if fin:
+            eng.check(f"{name}#ensures.min_bounds_every_value_and_is_attained", sv_and(sv_and(*[compare("<=", mn, x) for x in vals]), sv_or(*[compare("==", mn, x) for x in vals])))
+            eng.check(f"{name}#ensures.max_bounds_every_value_and_is_attained", sv_and(sv_and(*[compare(">=", mx, x) for x in vals]), sv_or(*[compare("==", mx, x) for x in vals])))
+
+    reg.add(C.Contract(f"{G}:findMinMax", params=dict(iterable=C.Const(None)), setup=setup_fmm, post=post_fmm, replay=replay_find_min_max, properties=("C05",), note="0 to 3 values", bounded=True))
+
+
+def make_replay_sup(fn):
+    def replay(inputs, clause):
+        import scenic.core.distributions as d
+
+        vals = [inputs[k] for k in sorted(k for k in inputs if k.startswith("v") and k[1:].isdigit())]
+        res = getattr(d, fn)(*vals)
+        if any(v is None for v in vals):
+            return None if res is None else f"{fn}{tuple(vals)} = {res} although a value is unknown"
+        want = min(vals) if fn == "supmin" else max(vals)
+        return None if res == want else f"{fn}{tuple(vals)} = {res}, expected {want}"
+
+    return replay
+
+
+def _ivs_from(inputs, prefix):
+    out, i = [], 0
+    while f"{prefix}{i}.lo" in inputs or f"{prefix}{i}.hi" in inputs:
+        out.append((inputs.get(f"{prefix}{i}.lo"), inputs.get(f"{prefix}{i}.hi")))
+        i += 1
+    return out
+
+
+def replay_union(inputs, clause):
+    from scenic.core.distributions import unionOfSupports
+
+    ivs = _ivs_from(inputs, "s")
+    lo, hi = unionOfSupports(iter(ivs))
+    x = inputs.get("x")
+    pts = [x] if x is not None else [b for iv in ivs for b in iv if b is not None]
+    for p in pts:
+        if any((a is None or a <= p) and (b is None or p <= b) for a, b in ivs):
+            if (lo is not None and p < lo) or (hi is not None and p > hi):
+                return f"unionOfSupports({ivs}) = ({lo}, {hi}) does not contain {p}, which lies in one of the supports"
+    return None
+
+
+def replay_add_supports(inputs, clause):
+    from scenic.core.distributions import addSupports
+
+    s1, s2 = (inputs.get("sup1.lo"), inputs.get("sup1.hi")), (inputs.get("sup2.lo"), inputs.get("sup2.hi"))
+    lo, hi = addSupports(s1, s2)
+    x, y = inputs.get("x"), inputs.get("y")
+    if x is not None and y is not None and _inside(x, *s1) and _inside(y, *s2):
+        v = x + y
+        if (lo is not None and v < lo - 1e-9) or (hi is not None and v > hi + 1e-9):
+            return f"addSupports({s1}, {s2}) = ({lo}, {hi}) does not contain {x} + {y}"
+    if (lo is None) != (s1[0] is None or s2[0] is None) or (hi is None) != (s1[1] is None or s2[1] is None):
+        return f"addSupports({s1}, {s2}) = ({lo}, {hi}): a bound is unknown/known against its inputs"
+    return None
+
+
+def _endpoint_value_ok(inputs, name):
+    """(sampled value of the endpoint, whether it lies in the endpoint's interval)"""
+    if f"{name}.lo" in inputs or f"{name}.hi" in inputs:
+        v = inputs.get(f"v({name})")
+        return v, v is not None and _inside(v, inputs.get(f"{name}.lo"), inputs.get(f"{name}.hi"))
+    return inputs.get(name), inputs.get(name) is not None
+
+
+def _sample_admissible(inputs):
+    (a, oka), (b, okb), v = _endpoint_value_ok(inputs, "low"), _endpoint_value_ok(inputs, "high"), inputs.get("sample")
+    return v is not None and oka and okb and min(a, b) <= v <= max(a, b)
+
+
+def _endpoint_real(inputs, name):
+    if f"{name}.lo" in inputs or f"{name}.hi" in inputs:
+        return _stub_dist(inputs.get(f"{name}.lo"), inputs.get(f"{name}.hi"))
+    return float(inputs.get(name, 0.0))
+
+
+def replay_range_support(inputs, clause):
+    from scenic.core.distributions import Range
+
+    r = Range.__new__(Range)
+    r.low, r.high = _endpoint_real(inputs, "low"), _endpoint_real(inputs, "high")
+    lo, hi = r.supportInterval()
+    v = inputs.get("sample")
+    if _sample_admissible(inputs) and ((lo is not None and v < lo - 1e-9) or (hi is not None and v > hi + 1e-9)):
+        return f"Range.supportInterval() = ({lo}, {hi}) for endpoints {inputs}; the sample {v} lies outside"
+    return None
+
+
+def replay_drange_support(inputs, clause):
+    from scenic.core.distributions import DiscreteRange
+
+    r = DiscreteRange.__new__(DiscreteRange)
+    r.low, r.high, r.weights = _endpoint_real(inputs, "low"), _endpoint_real(inputs, "high"), None
+    lo, hi = r.supportInterval()
+    v = inputs.get("sample")
+    ok = _sample_admissible(inputs) and _endpoint_value_ok(inputs, "low")[0] <= v <= _endpoint_value_ok(inputs, "high")[0]
+    if ok and ((lo is not None and v < lo - 1e-9) or (hi is not None and v > hi + 1e-9)):
+        return f"DiscreteRange.supportInterval() = ({lo}, {hi}) for endpoints {inputs}; the sample {v} lies outside"
+    return None
+
+
+def replay_find_min_max(inputs, clause):
+    from scenic.core.geometry import findMinMax
+
+    vals = [float(inputs[k]) for k in sorted(k for k in inputs if k.startswith("v") and k[1:].isdigit())]
+    mn, mx = findMinMax(iter(vals))
+    if vals and (mn != min(vals) or mx != max(vals)):
+        return f"findMinMax({vals}) = ({mn}, {mx}), expected ({min(vals)}, {max(vals)})"
+    return None
+
+
+# ------------------------------------------------------------------------------------------------
+# (6) other lifted nodes: sampling homomorphism, evaluateInner; the DelayedArgument layer
+
+
+def record_ctor(I, cls, args, kwargs):
+    """A node constructor at a construction site inside evaluateInner: a record of the arguments bound by the real signature."""
+    init = I.find_method(cls, "__init__")
+    o = PObj(cls)
+    env = I.bind_args(init, [o] + list(args), dict(kwargs))
+    o.fields["_ctor"] = {k: v for k, v in env.vars.items() if v is not o}
+    o.fields.update(_isLazy=True, _needsSampling=True, _needsLazyEval=False, _requiredProperties=(), _dependencies=())
+    o.fields["_conditioned"] = o
+    return o
+
+
+def recorder(calls, tag, result):
+    def fn(*a, **k):
+        calls.append((tag, a, k))
+        return result
+
+    return BuiltinFn(tag, fn)
+
+
+def register_other_nodes(reg):
+    for cn in ("FunctionDistribution", "MethodDistribution", "AttributeDistribution", "TupleDistribution", "SliceDistribution", "StarredDistribution", "Range", "Normal"):
+        reg.constructors[f"{D}:{cn}"] = record_ctor
+    reg.trust("node constructors at construction sites inside evaluateInner", "Function/Method/Attribute/Tuple/Slice/Starred distributions, Range and Normal are modelled as records of the arguments bound by their real __init__ signature")
+    starred_cls = repo_class(f"{D}:StarredDistribution")
+
+    def keys_and_values(n, tag):
+        return [PObj("RandomOperand", tag=f"{tag}{i}") for i in range(n)], [PObj("SampledOperand", tag=f"v({tag}{i})") for i in range(n)]
+
+    # ---------------------------------------------------------------- Function/MethodDistribution.sampleGiven
+    def make_call_contract(cn, is_method):
+        name = f"distributions.{cn}.sampleGiven"
+
+        def setup(I, env):
+            eng = I.eng
+            with_star = eng.choose(2, "a starred argument in the middle?") == 1
+            with_kw = eng.choose(2, "keyword arguments?") == 1
+            calls, R = [], PObj("Result", tag="result")
+            ks, vs = keys_and_values(2, "arg")
+            pairs = list(zip(ks, vs))
+            arguments, expected = [ks[0]], [vs[0]]
+            if with_star:
+                inner = PObj("RandomOperand", tag="starred value")
+                star = PObj(starred_cls, tag="*starred")
+                star.fields.update(value=inner, lineno=7)
+                elems = (PObj("SampledOperand", tag="s0"), PObj("SampledOperand", tag="s1"))
+                pairs += [(inner, elems), (star, elems)]
+                arguments.append(star)
+                expected += list(elems)
+            arguments.append(ks[1])
+            expected.append(vs[1])
+            kwn = ["beta", "alpha"] if with_kw else []
+            kk, kv = keys_and_values(len(kwn), "kw")
+            pairs += list(zip(kk, kv))
+            self = env.vars["self"]
+            fn = recorder(calls, "call", R)
+            self.fields.update(arguments=tuple(arguments), kwargs=PDict(list(zip(kwn, kk))))
+            if is_method:
+                self.fields.update(method=fn, object=PObj("FixedObject", tag="the object"))
+            else:
+                self.fields.update(function=fn)
+            env.vars["value"] = identity_map(I, pairs)
+            env.vars.update(_calls=calls, _R=R, _expected=expected, _kw=list(zip(kwn, kv)))
+            eng.input_syms.append(("starred", C.Const(None), with_star))
+            eng.input_syms.append(("keywords", C.Const(None), with_kw))
+
+        def post(I, env, outcome):
+            eng = I.eng
+            v = env.vars
+            calls = v["_calls"]
+            eng.check(f"{name}#ensures.function_called_exactly_once", len(calls) == 1)
+            eng.check(f"{name}#ensures.result_is_what_the_function_returned", outcome[0] == "return" and outcome[1] is v["_R"])
+            if len(calls) != 1:
+                return
+            a, k = calls[0][1], calls[0][2]
+            exp = ([v["self"].fields["object"]] if is_method else []) + v["_expected"]
+            eng.check(f"{name}#ensures.positional_arguments_are_the_sampled_values_in_order_with_starred_ones_spliced_in_place", len(a) == len(exp) and all(x is y for x, y in zip(a, exp)))
+            eng.check(f"{name}#ensures.keyword_arguments_keep_their_names", sorted(k) == sorted(n for n, _ in v["_kw"]) and all(k.get(n) is val for n, val in v["_kw"]))
+
+        reg.add(C.Contract(f"{D}:{cn}.sampleGiven", params=dict(self=C.Obj(f"{D}:{cn}"), value=C.Const(None)), setup=setup, post=post, raises=[C.Raises("TypeError", mode="may")], inline=["DefaultIdentityDict.__getitem__"], replay=make_replay_call_node(cn, is_method), properties=("C05",)))
+
+    make_call_contract("FunctionDistribution", False)
+    make_call_contract("MethodDistribution", True)
+
+    # ---------------------------------------------------------------- Tuple / Slice / Starred / Attribute .sampleGiven
+    def setup_tuple(I, env):
+        eng = I.eng
+        n = eng.choose(4, "number of coordinates")
+        ks, vs = keys_and_values(n, "coord")
+        b = eng.choose(3, "builder")
+        calls = []
+        builder = [I.builtins["tuple"], I.builtins["list"], None][b]
+        if builder is None:
+            marker = PObj("NamedTuple", tag="built")
+
+            def make(it):
+                calls.append(tuple(I.iterate(it)))
+                return marker
+
+            builder = BuiltinFn("_make", make)
+            env.vars["_marker"] = marker
+        env.vars["self"].fields.update(coordinates=tuple(ks), builder=builder)
+        env.vars["value"] = identity_map(I, list(zip(ks, vs)))
+        env.vars.update(_vs=vs, _b=b, _calls=calls)
+
+    def post_tuple(I, env, outcome):
+        eng = I.eng
+        name = "distributions.TupleDistribution.sampleGiven"
+        if outcome[0] != "return":
+            return
+        vs, b, res = env.vars["_vs"], env.vars["_b"], outcome[1]
+        if b == 2:
+            calls = env.vars["_calls"]
+            eng.check(f"{name}#ensures.custom_builder_receives_the_sampled_coordinates_in_order", res is env.vars["_marker"] and len(calls) == 1 and len(calls[0]) == len(vs) and all(x is y for x, y in zip(calls[0], vs)))
+            return
+        items = res if isinstance(res, tuple) else getattr(res, "items", None)
+        eng.check(f"{name}#ensures.same_container_type", isinstance(res, tuple) if b == 0 else isinstance(res, PList))
+        eng.check(f"{name}#ensures.elements_are_the_sampled_coordinates_in_order", items is not None and len(items) == len(vs) and all(x is y for x, y in zip(items, vs)))
+
+    reg.add(C.Contract(f"{D}:TupleDistribution.sampleGiven", params=dict(self=C.Obj(f"{D}:TupleDistribution"), value=C.Const(None)), setup=setup_tuple, post=post_tuple, inline=["DefaultIdentityDict.__getitem__"], properties=("C05",), note="0 to 3 coordinates", bounded=True))
+
+    def setup_slice(I, env):
+        ks, vs = keys_and_values(3, "part")
+        env.vars["self"].fields.update(start=ks[0], stop=ks[1], step=ks[2])
+        env.vars["value"] = identity_map(I, list(zip(ks, vs)))
+        env.vars["_vs"] = vs
+
+    def post_slice(I, env, outcome):
+        vs, res = env.vars["_vs"], outcome[1] if outcome[0] == "return" else None
+        I.eng.check("distributions.SliceDistribution.sampleGiven#ensures.slice_of_the_sampled_start_stop_step", isinstance(res, slice) and res.start is vs[0] and res.stop is vs[1] and res.step is vs[2])
+
+    reg.add(C.Contract(f"{D}:SliceDistribution.sampleGiven", params=dict(self=C.Obj(f"{D}:SliceDistribution"), value=C.Const(None)), setup=setup_slice, post=post_slice, inline=["DefaultIdentityDict.__getitem__"], properties=("C05",)))
+
+    def setup_attr(I, env):
+        k, v = PObj("RandomOperand", tag="object"), PObj("SampledObject", tag="v(object)")
+        a1, a2 = PObj("AttrValue", tag="v(object).width"), PObj("AttrValue", tag="v(object).length")
+        v.fields.update(width=a1, length=a2)
+        env.vars["self"].fields.update(attribute="width", object=k)
+        env.vars["value"] = identity_map(I, [(k, v)])
+        env.vars["_a1"] = a1
+
+    def post_attr(I, env, outcome):
+        I.eng.check("distributions.AttributeDistribution.sampleGiven#ensures.the_named_attribute_of_the_sampled_object", outcome[0] == "return" and outcome[1] is env.vars["_a1"])
+
+    reg.add(C.Contract(f"{D}:AttributeDistribution.sampleGiven", params=dict(self=C.Obj(f"{D}:AttributeDistribution"), value=C.Const(None)), setup=setup_attr, post=post_attr, inline=["DefaultIdentityDict.__getitem__"], properties=("C05",)))
+
+    def setup_star(I, env):
+        k, v = PObj("RandomOperand", tag="value"), PObj("SampledOperand", tag="v(value)")
+        env.vars["self"].fields.update(value=k, lineno=3)
+        env.vars["value"] = identity_map(I, [(k, v)])
+        env.vars["_v"] = v
+
+    def post_star(I, env, outcome):
+        I.eng.check("distributions.StarredDistribution.sampleGiven#ensures.the_sampled_value_of_the_starred_expression", outcome[0] == "return" and outcome[1] is env.vars["_v"])
+
+    reg.add(C.Contract(f"{D}:StarredDistribution.sampleGiven", params=dict(self=C.Obj(f"{D}:StarredDistribution"), value=C.Const(None)), setup=setup_star, post=post_star, inline=["DefaultIdentityDict.__getitem__"], properties=("C05",)))
+
+    # ---------------------------------------------------------------- AttributeDistribution.supportInterval
+    def setup_asi(I, env):
+        eng = I.eng
+        mux = eng.choose(2, "object is a multiplexer over fixed options?") == 0
+        self = env.vars["self"]
+        self.fields["attribute"] = "width"
+        env.vars["_opts"] = None
+        if not mux:
+            self.fields["object"] = operand_stub("object", None, None)
+            return
+        n = 1 + eng.choose(2, "number of options")
+        opts = []
+        for i in range(n):
+            o = PObj("FixedOption", tag=f"opt{i}")
+            if eng.choose(2, f"opt{i}.width random?") == 0:
+                c = eng.fresh_real(f"opt{i}.width")
+                eng.input_syms.append((f"opt{i}.width", C.Real(), c))
+                o.fields["width"] = c
+                opts.append((o, c, True))
+            else:
+                iv = make_interval(eng, f"opt{i}.width")
+                w, h = point_in(eng, f"v(opt{i}.width)", *iv)
+                o.fields["width"] = operand_stub(f"opt{i}.width", *iv)
+                opts.append((o, w, h))
+        m = PObj(repo_class(f"{D}:MultiplexerDistribution"), tag="multiplexer")
+        m.fields.update(options=tuple(o for o, _, _ in opts), index=PObj("Selector", tag="index"))
+        self.fields["object"] = m
+        env.vars["_opts"] = opts
+
+    def post_asi(I, env, outcome):
+        eng = I.eng
+        name = "distributions.AttributeDistribution.supportInterval"
+        if outcome[0] != "return":
+            return
+        opts = env.vars["_opts"]
+        if opts is None:
+            check_sound(eng, name + "[other object]", outcome[1], False, 0, True)
+            res = outcome[1]
+            eng.check(f"{name}[other object]#ensures.nothing_claimed_about_an_unknown_object", isinstance(res, tuple) and res[0] is None and res[1] is None)
+            return
+        k = eng.choose(len(opts), "selected option")
+        check_sound(eng, name, outcome[1], True, opts[k][1], opts[k][2])
+
+    reg.add(C.Contract(f"{D}:AttributeDistribution.supportInterval", params=dict(self=C.Obj(f"{D}:AttributeDistribution")), setup=setup_asi, post=post_asi, inline=["supportInterval", "unionOfSupports", "supmin", "supmax"], properties=("C05",), note="1 or 2 fixed options", bounded=True))
+
+    # ---------------------------------------------------------------- evaluateInner of the other nodes
+    def make_eval_inner(cn, fields, expect):
+        """fields: dict field -> 'lazy' | ('lazies', n) | ('kw', names) | constant; expect(ctor, V) -> list of (clause, bool)."""
+        name = f"distributions.{cn}.evaluateInner"
+
+        def setup(I, env):
+            reset_vic(I)
+            self = env.vars["self"]
+            made = {}
+            for f, kind in fields.items():
+                if kind == "lazy":
+                    made[f] = PObj("LazyOperand", tag=f)
+                elif isinstance(kind, tuple) and kind[0] == "lazies":
+                    made[f] = tuple(PObj("LazyOperand", tag=f"{f}{i}") for i in range(kind[1]))
+                elif isinstance(kind, tuple) and kind[0] == "kw":
+                    made[f] = PDict([(n, PObj("LazyOperand", tag=f"{f}:{n}")) for n in kind[1]])
+                else:
+                    made[f] = kind
+                self.fields[f] = made[f]
+            ctx = PObj("Context", tag="context")
+            env.vars["context"] = ctx
+            env.vars.update(_made=made, _ctx=ctx)
+
+        def post(I, env, outcome):
+            eng = I.eng
+            if outcome[0] != "return":
+                return
+            res = outcome[1]
+            ok = isinstance(res, PObj) and getattr(res.cls, "name", None) == cn and "_ctor" in res.fields
+            eng.check(f"{name}#ensures.builds_a_node_of_the_same_class", ok)
+            if not ok:
+                return
+            for clause, val in expect(res.fields["_ctor"], lambda x: vic_of(I, x), env.vars["_made"]):
+                eng.check(f"{name}#ensures.{clause}", val)
+            eng.check(f"{name}#ensures.everything_evaluated_in_the_given_context", all(c is env.vars["_ctx"] for _, c in I.vic_log))
+
+        reg.add(C.Contract(f"{D}:{cn}.evaluateInner", params=dict(self=C.Obj(f"{D}:{cn}"), context=C.Const(None)), setup=setup, post=post, properties=("C05",)))
+
+    def seq_is(got, keys, V):
+        got = tuple(got) if isinstance(got, tuple) else tuple(getattr(got, "items", ()))
+        return len(got) == len(keys) and all(V(k) is not None and g is V(k) for g, k in zip(got, keys))
+
+    def kw_is(got, made, V):
+        return isinstance(got, PDict) and list(got.keys) == list(made.keys) and all(V(k) is not None and g is V(k) for g, k in zip(got.vals, made.vals))
+
+    make_eval_inner(
+        "FunctionDistribution",
+        dict(function="lazy", arguments=("lazies", 2), kwargs=("kw", ["beta", "alpha"]), support=None),
+        lambda c, V, m: [
+            ("function_is_the_context_value_of_the_function", c["func"] is V(m["function"]) and c["func"] is not None),
+            ("arguments_are_the_context_values_of_the_corresponding_arguments", seq_is(c["args"], m["arguments"], V)),
+            ("keyword_arguments_keep_names_and_correspond", kw_is(c["kwargs"], m["kwargs"], V)),
+        ],
+    )
+    meth = PObj("Method", tag="the method")
+    make_eval_inner(
+        "MethodDistribution",
+        dict(method=meth, object="lazy", arguments=("lazies", 2), kwargs=("kw", ["beta", "alpha"])),
+        lambda c, V, m: [
+            ("same_method", c["method"] is meth),
+            ("object_is_the_context_value_of_the_object", c["obj"] is V(m["object"]) and c["obj"] is not None),
+            ("arguments_are_the_context_values_of_the_corresponding_arguments", seq_is(c["args"], m["arguments"], V)),
+            ("keyword_arguments_keep_names_and_correspond", kw_is(c["kwargs"], m["kwargs"], V)),
+        ],
+    )
+    make_eval_inner(
+        "AttributeDistribution",
+        dict(attribute="width", object="lazy"),
+        lambda c, V, m: [("same_attribute", c["attribute"] == "width"), ("object_is_the_context_value_of_the_object", c["obj"] is V(m["object"]) and c["obj"] is not None)],
+    )
+    bld = PObj("Builder", tag="builder")
+    make_eval_inner(
+        "TupleDistribution",
+        dict(coordinates=("lazies", 3), builder=bld),
+        lambda c, V, m: [("same_builder", c["builder"] is bld), ("coordinates_are_the_context_values_in_order", seq_is(c["coordinates"], m["coordinates"], V))],
+    )
+    make_eval_inner(
+        "SliceDistribution",
+        dict(start="lazy", stop="lazy", step="lazy"),
+        lambda c, V, m: [("start_stop_step_correspond", all(V(m[k]) is not None and c[k] is V(m[k]) for k in ("start", "stop", "step")))],
+    )
+    make_eval_inner(
+        "StarredDistribution",
+        dict(value="lazy", lineno=11),
+        lambda c, V, m: [("value_corresponds_and_line_kept", c["value"] is V(m["value"]) and c["lineno"] == 11)],
+    )
+    make_eval_inner("Range", dict(low="lazy", high="lazy"), lambda c, V, m: [("low_and_high_correspond", c["low"] is V(m["low"]) and c["high"] is V(m["high"]) and V(m["low"]) is not V(m["high"]))])
+    make_eval_inner("Normal", dict(mean="lazy", stddev="lazy"), lambda c, V, m: [("mean_and_stddev_correspond", c["mean"] is V(m["mean"]) and c["stddev"] is V(m["stddev"]) and V(m["mean"]) is not V(m["stddev"]))])
+
+
+def make_replay_call_node(cn, is_method):
+    def replay(inputs, clause):
+        import scenic.core.distributions as d
+        from scenic.core.utils import DefaultIdentityDict
+
+        class Key(d.Distribution):
+            def __init__(self):
+                super().__init__()
+
+        calls = []
+
+        def fn(*a, **k):
+            calls.append((a, k))
+            return "R"
+
+        k0, k1 = Key(), Key()
+        m = DefaultIdentityDict()
+        m[k0], m[k1] = "v0", "v1"
+        args, exp = [k0], ["v0"]
+        if inputs.get("starred"):
+            inner = Key()
+            st = d.StarredDistribution(inner, 7)
+            m[inner] = m[st] = ("s0", "s1")
+            args.append(st)
+            exp += ["s0", "s1"]
+        args.append(k1)
+        exp.append("v1")
+        kw, kwexp = {}, {}
+        if inputs.get("keywords"):
+            for n in ("beta", "alpha"):
+                kw[n] = Key()
+                m[kw[n]] = kwexp[n] = "v:" + n
+        fixed = object()
+        node = d.MethodDistribution(fn, fixed, tuple(args), kw, valueType=object) if is_method else d.FunctionDistribution(fn, tuple(args), kw, valueType=object)
+        res = node.sampleGiven(m)
+        want = ([fixed] if is_method else []) + exp
+        if res != "R" or len(calls) != 1 or list(calls[0][0]) != want or calls[0][1] != kwexp:
+            return f"{cn}.sampleGiven called the function as {calls!r} (result {res!r}); expected one call with {want!r}, {kwexp!r}"
+        return None
+
+    return replay
+
+
+# ------------------------------------------------------------------------------------------------
+# (6b) the lazy layer (lazy_eval.py): delayed operations apply the operation to the context values of their parts
+
+
+def register_lazy_layer(reg):
+    DA = f"{L}:DelayedArgument"
+    da_cls = repo_class(DA)
+
+    def lazy_part(tag, props):
+        o = PObj(da_cls, tag=tag)
+        o.fields.update(_requiredProperties=tuple(props), _needsLazyEval=True, _isLazy=True, _needsSampling=False, _dependencies=())
+        return o
+
+    def delayed_self(calls, props, evaluated):
+        s = lazy_part("self", props)
+        s.fields["evaluateIn"] = recorder(calls, "self.evaluateIn", evaluated)
+        return s
+
+    def run_value(I, res, ctx, name):
+        """Call the `value` closure of the DelayedArgument produced by a carrier."""
+        eng = I.eng
+        ok = isinstance(res, PObj) and getattr(res.cls, "name", None) == "DelayedArgument" and isinstance(res.fields.get("value"), FuncVal)
+        eng.check(f"{name}#ensures.returns_a_delayed_argument", ok)
+        if not ok:
+            return False, None
+        reset_vic(I)
+        try:
+            return True, I.call_value(res.fields["value"], [ctx])
+        except SymRaise as sr:
+            eng.check(f"{name}#ensures.evaluation_does_not_raise", False, detail=repr(sr.exc))
+            return False, None
+
+    def props_ok(res, want):
+        got = res.fields.get("_requiredProperties")
+        return isinstance(got, tuple) and sorted(got) == sorted(set(want)) and res.fields.get("_needsLazyEval") is True and res.fields.get("_isLazy") is True
+
+    INL = ["DelayedArgument.__init__", "LazilyEvaluable.__init__"]
+
+    # ---------------------------------------------------------------- makeDelayedOperatorHandler.handler
+    LOPS = ["__add__", "__rsub__", "__getitem__", "__neg__", "__lt__"]
+
+    def setup_oh(I, env):
+        eng = I.eng
+        op = holder_oh["op"]
+        calls, R = [], PObj("Result", tag="result")
+        E = PObj("Evaluated", tag="self in context")
+        E.fields[op] = recorder(calls, "operation", R)
+        nargs = 0 if op == "__neg__" else 1
+        args = [lazy_part("arg0", ("b", "c"))][:nargs] if eng.choose(2, "lazy argument?") == 0 else [PObj("Plain", tag="arg0")][:nargs]
+        env.vars["self"] = delayed_self(calls, ("a", "b"), E)
+        env.vars["args"] = tuple(args)
+        env.vars.update(_op=op, _calls=calls, _R=R, _E=E)
+        eng.input_syms.append(("operator", C.Const(None), op))
+
+    holder_oh = {}
+
+    def closure_oh(I):
+        # the closure variable `op` of makeDelayedOperatorHandler: chosen first, read by setup
+        holder_oh["op"] = LOPS[I.eng.choose(len(LOPS), "operator")]
+        return dict(op=holder_oh["op"])
+
+    def post_oh(I, env, outcome):
+        eng = I.eng
+        name = "lazy_eval.makeDelayedOperatorHandler.handler"
+        if outcome[0] != "return":
+            return
+        v = env.vars
+        ctx = PObj("Context", tag="context")
+        ok, val = run_value(I, outcome[1], ctx, name)
+        if not ok:
+            return
+        want_props = ["a", "b"] + [p for a in v["args"] for p in a.fields.get("_requiredProperties", ())]
+        eng.check(f"{name}#ensures.required_properties_are_the_union_of_the_parts", props_ok(outcome[1], want_props))
+        calls = v["_calls"]
+        ev = [c for c in calls if c[0] == "self.evaluateIn"]
+        opc = [c for c in calls if c[0] == "operation"]
+        eng.check(f"{name}#ensures.self_evaluated_once_in_the_context", len(ev) == 1 and len(ev[0][1]) == 1 and ev[0][1][0] is ctx)
+        eng.check(f"{name}#ensures.operation_applied_once_to_the_context_values_of_the_arguments", len(opc) == 1 and len(opc[0][1]) == len(v["args"]) and all(a is vic_of(I, k) for a, k in zip(opc[0][1], v["args"])) and not opc[0][2])
+        eng.check(f"{name}#ensures.value_is_the_result_of_the_operation", val is v["_R"])
+        eng.check(f"{name}#ensures.arguments_evaluated_in_the_same_context", all(c is ctx for _, c in I.vic_log))
+
+    reg.add(
+        C.Contract(
+            f"{L}:makeDelayedOperatorHandler.handler",
+            params=dict(self=C.Const(None), args=C.Const(None)),
+            closure_env=closure_oh,
+            setup=setup_oh,
+            post=post_oh,
+            inline=INL,
+            replay=replay_delayed_operator,
+            properties=("C05",),
+        )
+    )
+
+    # ---------------------------------------------------------------- DelayedArgument.__call__ / makeDelayedFunctionCall
+    def make_call(target, short, is_method):
+        def setup(I, env):
+            eng = I.eng
+            calls, R = [], PObj("Result", tag="result")
+            nkw = eng.choose(3, "number of keyword arguments")
+            kwn = ["beta", "alpha"][:nkw]
+            args = [lazy_part("arg0", ("b",)), PObj("Plain", tag="arg1")]
+            kws = [lazy_part(f"kw:{n}", ("c", n)) for n in kwn]
+            fn = recorder(calls, "call", R)
+            if is_method:
+                env.vars["self"] = delayed_self(calls, ("a",), fn)
+                env.vars["args"] = tuple(args)
+                for n, k in zip(kwn, kws):
+                    env.vars[n] = k
+            else:
+                env.vars["func"] = fn
+                env.vars["args"] = tuple(args)
+                env.vars["kwargs"] = PDict(list(zip(kwn, kws)))
+            env.vars.update(_calls=calls, _R=R, _args=args, _kw=list(zip(kwn, kws)))
+            eng.input_syms.append(("n_keywords", C.Const(None), nkw))
+
+        def post(I, env, outcome):
+            eng = I.eng
+            if outcome[0] != "return":
+                return
+            v = env.vars
+            ctx = PObj("Context", tag="context")
+            ok, val = run_value(I, outcome[1], ctx, short)
+            if not ok:
+                return
+            want = (["a"] if is_method else []) + ["b"] + [p for _, k in v["_kw"] for p in k.fields["_requiredProperties"]]
+            eng.check(f"{short}#ensures.required_properties_are_the_union_of_the_parts", props_ok(outcome[1], want))
+            cc = [c for c in v["_calls"] if c[0] == "call"]
+            eng.check(f"{short}#ensures.function_called_once", len(cc) == 1)
+            if len(cc) == 1:
+                a, k = cc[0][1], cc[0][2]
+                eng.check(f"{short}#ensures.positional_arguments_are_context_values_in_order", len(a) == 2 and all(x is vic_of(I, y) for x, y in zip(a, v["_args"])))
+                eng.check(f"{short}#ensures.keyword_arguments_keep_names_and_are_context_values", sorted(k) == sorted(n for n, _ in v["_kw"]) and all(k.get(n) is vic_of(I, key) for n, key in v["_kw"]))
+            eng.check(f"{short}#ensures.value_is_the_result_of_the_call", val is v["_R"])
+            if is_method:
+                ev = [c for c in v["_calls"] if c[0] == "self.evaluateIn"]
+                eng.check(f"{short}#ensures.self_evaluated_once_in_the_context", len(ev) == 1 and ev[0][1][0] is ctx)
+
+        params = dict(self=C.Const(None), args=C.Const(None)) if is_method else dict(func=C.Const(None), args=C.Const(None), kwargs=C.Const(None))
+        reg.add(C.Contract(target, params=params, kwargs={"beta": None, "alpha": None} if is_method else None, setup=setup, post=post, inline=INL, replay=make_replay_delayed_call(is_method), properties=("C05",)))
+
+    make_call(f"{DA}.__call__", "lazy_eval.DelayedArgument.__call__", True)
+    make_call(f"{L}:makeDelayedFunctionCall", "lazy_eval.makeDelayedFunctionCall", False)
+
+    # ---------------------------------------------------------------- DelayedArgument.__getattr__
+    def setup_ga(I, env):
+        calls = []
+        A = PObj("AttrValue", tag="(self in context).width")
+        E = PObj("Evaluated", tag="self in context")
+        E.fields["width"] = A
+        env.vars["self"] = delayed_self(calls, ("a", "b"), E)
+        env.vars["name"] = "width"
+        env.vars.update(_calls=calls, _A=A)
+
+    def post_ga(I, env, outcome):
+        eng = I.eng
+        name = "lazy_eval.DelayedArgument.__getattr__"
+        if outcome[0] != "return":
+            return
+        ctx = PObj("Context", tag="context")
+        ok, val = run_value(I, outcome[1], ctx, name)
+        if not ok:
+            return
+        eng.check(f"{name}#ensures.required_properties_are_those_of_self", props_ok(outcome[1], ["a", "b"]))
+        ev = env.vars["_calls"]
+        eng.check(f"{name}#ensures.value_is_the_attribute_of_self_evaluated_in_the_context", val is env.vars["_A"] and len(ev) == 1 and ev[0][1][0] is ctx)
+
+    reg.add(C.Contract(f"{DA}.__getattr__", params=dict(self=C.Const(None), name=C.Const(None)), setup=setup_ga, post=post_ga, inline=INL, properties=("C05",)))
+
+    # ---------------------------------------------------------------- valueInContext
+    def setup_vic(I, env):
+        eng = I.eng
+        kind = eng.choose(4, "kind of value")
+        calls, E = [], PObj("Evaluated", tag="value in context")
+        if kind == 0:
+            val = delayed_self(calls, ("a",), E)
+        elif kind == 1:  # a LazilyEvaluable that needs no lazy evaluation (e.g. a distribution over constants)
+            val = lazy_part("settled", ())
+            val.fields.update(_needsLazyEval=False, evaluateIn=recorder(calls, "self.evaluateIn", E))
+        elif kind == 2:
+            val = eng.fresh_real("c")
+        else:
+            val = PObj("Plain", tag="plain object")
+        ctx = PObj("Context", tag="context")
+        env.vars.update(value=val, context=ctx, _kind=kind, _calls=calls, _E=E)
+
+    def post_vic(I, env, outcome):
+        eng = I.eng
+        name = "lazy_eval.valueInContext"
+        v = env.vars
+        if outcome[0] != "return":
+            return
+        if v["_kind"] == 0:
+            eng.check(f"{name}#ensures.lazy_value_is_evaluated_once_in_the_context", outcome[1] is v["_E"] and len(v["_calls"]) == 1 and v["_calls"][0][1][0] is v["context"])
+        else:
+            eng.check(f"{name}#ensures.other_values_are_returned_unchanged", outcome[1] is v["value"] and len(v["_calls"]) == 0)
+
+    reg.add(C.Contract(f"{L}:valueInContext", params=dict(value=C.Const(None), context=C.Const(None)), setup=setup_vic, post=post_vic, properties=("C05",)), key=f"{L}:valueInContext[verify]")
+
+    # ---------------------------------------------------------------- LazilyEvaluable.evaluateIn (the per-object cache)
+    def setup_ev(I, env):
+        eng = I.eng
+        cached = eng.choose(2, "already evaluated in this context?") == 0
+        calls = []
+        V = PObj("Evaluated", tag="fresh evaluation")
+        still_lazy = (not cached) and eng.choose(2, "evaluation still lazy?") == 1
+        if still_lazy:
+            V.fields["_needsLazyEval"] = True
+        old = PObj("Evaluated", tag="cached evaluation")
+        self = lazy_part("self", ("a",))
+        self.fields["evaluateInner"] = recorder(calls, "evaluateInner", V)
+        other = lazy_part("other", ("a",))
+        ctx = PObj("Context", tag="context")
+        cache = identity_map(I, [(other, PObj("Evaluated", tag="other cached"))] + ([(self, old)] if cached else []))
+        has_prop = eng.choose(2, "context has the required property?") == 0
+        ctx.fields["_evaluated"] = cache
+        if has_prop:
+            ctx.fields["a"] = 1
+        env.vars.update(self=self, context=ctx, _cached=cached, _calls=calls, _V=V, _prev=old, _cache=cache, _still=still_lazy, _has=has_prop)
+
+    def post_ev(I, env, outcome):
+        eng = I.eng
+        name = "lazy_eval.LazilyEvaluable.evaluateIn"
+        v = env.vars
+        calls = v["_calls"]
+        if v["_cached"]:
+            eng.check(f"{name}#ensures.cached_value_returned_without_re-evaluation", outcome[0] == "return" and outcome[1] is v["_prev"] and len(calls) == 0)
+            return
+        if not v["_has"] or v["_still"]:
+            eng.check(f"{name}#raises.AssertionError_on_missing_property_or_unfinished_evaluation", outcome[0] == "raise" and exc_name(outcome[1]) == "AssertionError")
+            return
+        eng.check(f"{name}#ensures.evaluated_exactly_once_in_the_context", outcome[0] == "return" and len(calls) == 1 and calls[0][1][0] is v["context"] and outcome[1] is v["_V"])
+        from pyvc.builtins_model import IdToken
+
+        got = v["_cache"].fields["storage"].get(IdToken(v["self"]))
+        eng.check(f"{name}#ensures.result_cached_under_this_value", got is v["_V"])
+
+    reg.add(
+        C.Contract(
+            f"{L}:LazilyEvaluable.evaluateIn",
+            params=dict(self=C.Const(None), context=C.Const(None)),
+            setup=setup_ev,
+            post=post_ev,
+            raises=[C.Raises("AssertionError", mode="may")],
+            inline=["DefaultIdentityDict.__getitem__", "DefaultIdentityDict.__setitem__", "DefaultIdentityDict.__contains__"],
+            properties=("C05",),
+        )
+    )
+
+
+def replay_delayed_operator(inputs, clause):
+    from scenic.core.lazy_eval import DelayedArgument, LazilyEvaluable
+
+    op = inputs.get("operator", "__add__")
+    calls = []
+
+    class E:
+        pass
+
+    e = E()
+
+    def opf(*a, **k):
+        calls.append((a, k))
+        return "R"
+
+    setattr(E, op, lambda self, *a, **k: opf(*a, **k))
+    me = DelayedArgument(("a",), lambda ctx: e, _internal=True)
+    arg = DelayedArgument(("b",), lambda ctx: "ctx(arg0)", _internal=True)
+    args = () if op == "__neg__" else (arg,)
+    res = getattr(DelayedArgument, op)(me, *args)
+    ctx = LazilyEvaluable.makeContext(a=1, b=2)
+    val = res.evaluateIn(ctx)
+    want = () if op == "__neg__" else ("ctx(arg0)",)
+    if val != "R" or len(calls) != 1 or tuple(calls[0][0]) != want or set(res._requiredProperties) != ({"a"} | ({"b"} if args else set())):
+        return f"delayed {op}: value {val!r}, calls {calls!r}, required properties {res._requiredProperties!r}"
+    return None
+
+
+def make_replay_delayed_call(is_method):
+    def replay(inputs, clause):
+        from scenic.core.lazy_eval import DelayedArgument, LazilyEvaluable, makeDelayedFunctionCall
+
+        kwn = ["beta", "alpha"][: int(inputs.get("n_keywords", 0))]
+        calls = []
+
+        def fn(*a, **k):
+            calls.append((a, k))
+            return "R"
+
+        a0 = DelayedArgument(("b",), lambda ctx: "ctx(arg0)", _internal=True)
+        kws = {n: DelayedArgument(("c", n), (lambda n: lambda ctx: "ctx(kw:%s)" % n)(n), _internal=True) for n in kwn}
+        if is_method:
+            me = DelayedArgument(("a",), lambda ctx: fn, _internal=True)
+            res = me(a0, "plain", **kws)
+        else:
+            res = makeDelayedFunctionCall(fn, (a0, "plain"), kws)
+        props = {"b"} | ({"a"} if is_method else set()) | {p for n in kwn for p in ("c", n)}
+        ctx = LazilyEvaluable.makeContext(**{p: 1 for p in props})
+        val = res.evaluateIn(ctx)
+        wantkw = {n: "ctx(kw:%s)" % n for n in kwn}
+        if val != "R" or len(calls) != 1 or tuple(calls[0][0]) != ("ctx(arg0)", "plain") or calls[0][1] != wantkw or set(res._requiredProperties) != props:
+            return f"delayed call: value {val!r}, calls {calls!r} (expected ('ctx(arg0)', 'plain'), {wantkw!r}), required properties {res._requiredProperties!r} (expected {sorted(props)!r})"
+        return None
+
+    return replay
